@@ -560,8 +560,11 @@ def stage_signature(req, info, v):
             tuple(x.get('name') for x in e2e.enabled_biases(req)))
 
 
-def collect_stages(ctx, reqs):
-    """runs the requests with tracing; returns (stage infos, verdicts, per-request results)"""
+def collect_stages(ctx, reqs, names=None):
+    """runs the requests with tracing; returns (stage infos, verdicts, per-request results).
+    The properties speak about numbers: a stage that starts from data holding NaN / Inf is counted and not judged, and so is a
+    stage on which the binary64 model itself leaves the finite range (exp overflow: the code does what its model does). A stage
+    that produces NaN / Inf where the model computes numbers is a violation of the property of that bias (`names`)."""
     terms, infos, ress = [], [], []
     for r in reqs:
         res = ctx.pipe.call({'op': 'trace', 'req': r})
@@ -571,11 +574,14 @@ def collect_stages(ctx, reqs):
                 pr = i['stage'].get('props')
                 prf = i['stage'].get('propsFinal')
                 bad = [x for x in (pr, prf) if isinstance(x, dict) and '__marshalError' in x]
-                if bad:
-                    # what the bias reports holds a number JSON cannot carry (NaN / Inf): the response of the service cannot be produced
+                if bad and (names is None or i['bias'].get('name') in names) and not e2e.has_nonfinite(i['stage'].get('curBefore')):
+                    # the report cannot be encoded and not even be read back by the harness
                     ctx.violation('the report of %s holds a value that is not a number (%s)' % (i['bias'].get('name'), bad[0]['__marshalError']),
                                   {'request': r, 'bias': i['bias'], 'after': i['stage'].get('curAfter')},
                                   {'method': r.get('preferenceFunction'), 'bias': i['bias'].get('name')})
+                    continue
+                if bad:
+                    ctx.count('nonfinite/stage not judged (report unreadable)')
                     continue
                 ctx.violation('a traced stage could not be turned into a model term (unexpected shape): %s' % i['error'],
                               {'broken': 'emitter', 'request': r, 'stage': i['stage']}, found_input=False)
@@ -594,7 +600,32 @@ def collect_stages(ctx, reqs):
         v2, l2 = core.run_cases(ctx.pid + 'sx', 'judge_stage', t2, shard=10)
         for k, v in zip(again, v2):
             verd[k] = v
-    return infos, verd, ress, logs
+    ki, kv = [], []
+    mcol = SCOL['model_nonfinite']
+    for (r, res, i), v in zip(infos, verd):
+        st = i['stage']
+        name = i['bias'].get('name')
+        if e2e.has_nonfinite(st.get('curBefore')):
+            ctx.count('nonfinite/stage starts from data holding NaN or Inf: not judged')
+            core.NONFINITE += 1
+            continue
+        if e2e.has_nonfinite(st.get('curAfter')) or e2e.has_nonfinite(st.get('props')):
+            if len(v) > mcol and v[mcol] == 1:
+                ctx.count('nonfinite/the binary64 model leaves the finite range too (overflow): not judged')
+                core.NONFINITE += 1
+                continue
+            if len(v) > mcol and v[0] not in (10, 11, 12, 99) and (names is None or name in names):
+                ctx.violation('%s produces a value that is not a number (NaN / Inf) where its specification computes numbers' % name,
+                              {'request': r, 'bias': i['bias'], 'before': st.get('curBefore'), 'after': st.get('curAfter'),
+                               'report': e2e.tolerant_report(st.get('props'))[0]},
+                              {'method': r.get('preferenceFunction'), 'bias': name})
+                continue
+            if names is not None and name not in names:
+                ctx.count('nonfinite/stage of another bias produces NaN or Inf: not judged here')
+                continue
+        ki.append((r, res, i))
+        kv.append(v)
+    return ki, kv, ress, logs
 
 
 STAGE_TEXT = {1: 'model rejects what the code accepts', 2: 'the code fails where the model (the specified behaviour) succeeds',
@@ -616,7 +647,7 @@ def stage_check(ctx, col, names, gens, n_quick, n_thorough, rule, extra=None, ag
         ws = [g[0] for g in gens]
         for _ in range(n_cases(ctx, n_quick, n_thorough)):
             reqs.append(rnd.choices(gens, ws)[0][1](rnd))
-    infos, verd, ress, logs = collect_stages(ctx, reqs)
+    infos, verd, ress, logs = collect_stages(ctx, reqs, names)
     for r, res in zip(reqs, ress):
         ctx.count('request/' + ('accepted' if res.get('ok') else 'rejected'))
     broken = []
@@ -652,7 +683,7 @@ def stage_check(ctx, col, names, gens, n_quick, n_thorough, rule, extra=None, ag
         # correspondence broken, every checker satisfied so far: search for a failing input with aimed sequences
         ws2 = [g[0] for g in search_gens]
         extra = [rnd.choices(search_gens, ws2)[0][1](rnd) for _ in range(n_cases(ctx, 500, 5000))]
-        i2, v2, r2, _ = collect_stages(ctx, extra)
+        i2, v2, r2, _ = collect_stages(ctx, extra, names)
         ctx.notes.append('search phase: %d further requests, %d stages' % (len(extra), len(i2)))
         for (req, res, info), v in zip(i2, v2):
             name = info['bias'].get('name')
